@@ -8,12 +8,15 @@ package keyproof
 
 import (
 	"fmt"
+	"runtime"
 	"sync"
 	"testing"
 	"time"
 
 	"github.com/privacybydesign/gabi/big"
+	"github.com/privacybydesign/gabi/internal/common"
 	"github.com/privacybydesign/gabi/internal/verif/vkit"
+	"github.com/privacybydesign/gabi/internal/verif/vsched"
 	"github.com/privacybydesign/gabi/zkproof"
 )
 
@@ -90,4 +93,95 @@ func TestVerifC20RaceKeyproof(t *testing.T) {
 		}
 	}
 	r.Sample(map[string]any{"goroutines": []int{2, 4, 8}, "repetitions": reps})
+}
+
+// ---- controlled-scheduler exploration of the exp proof's worker pool ------------------------------
+
+func TestVerifC20ExpPool(t *testing.T) {
+	r := vkit.Start(t, "C20", "exp-worker-pool", 200*time.Second, 900*time.Second)
+	defer r.Finish()
+	r.Rule = "the exp proof's worker pool (runtime.NumCPU() workers pulling work items through an atomic counter, joined by a WaitGroup) building commitments from secrets and reconstructing them from the proof, explored under the controlled scheduler: every interleaving of the atomic fetch-and-add / WaitGroup points with <= B preemptions; non-trivial = distinct schedule; oracle: no deadlock / panic / leaked worker, the commitment list is complete (no nil slot) and the list reconstructed from the proof equals the list built from the secrets"
+	bound := vkit.Pick(2, 3)
+	r.Bounds["max_preemptions"] = bound
+	r.Bounds["workers(runtime.NumCPU under the affinity mask set by the runner)"] = runtime.NumCPU()
+	if runtime.NumCPU() > 4 {
+		// without the affinity mask the pool has one worker per core: the space is then too large for the
+		// higher bound
+		bound = 1
+		r.Bounds["max_preemptions"] = bound
+	}
+	g, _ := zkproof.BuildGroup(c17SafePrime(c17Seeded("group-pool"), 40))
+	ch := big.NewInt(77)
+	deadline := time.Now().Add(time.Duration(r.Bounds["budget_s"].(float64)) * time.Second)
+	for _, phase := range []string{"commitmentsFromSecrets", "commitmentsFromProof"} {
+		var ls, lp []*big.Int
+		fresh := func() vsched.Scenario {
+			common.VerifSeedCPRNG([32]byte{9, 9})
+			as, bs, ns, rs := newPedersenStructure("a"), newPedersenStructure("b"), newPedersenStructure("n"), newPedersenStructure("r")
+			_, ap := as.commitmentsFromSecrets(g, nil, big.NewInt(2))
+			_, bp := bs.commitmentsFromSecrets(g, nil, big.NewInt(5))
+			_, np := ns.commitmentsFromSecrets(g, nil, big.NewInt(11))
+			_, rp := rs.commitmentsFromSecrets(g, nil, big.NewInt(-1))
+			bases := zkproof.NewBaseMerge(&g, &ap, &bp, &np, &rp)
+			secrets := zkproof.NewSecretMerge(&ap, &bp, &np, &rp)
+			s := newExpProofStructure("a", "b", "n", "r", 3)
+			ls, lp = nil, nil
+			body := func() {
+				var commit expProofCommit
+				ls, commit = s.commitmentsFromSecrets(g, nil, &bases, &secrets)
+				if phase == "commitmentsFromProof" {
+					proof := s.buildProof(g, ch, commit, &secrets)
+					aP, bP, nP, rP := as.buildProof(g, ch, ap), bs.buildProof(g, ch, bp), ns.buildProof(g, ch, np), rs.buildProof(g, ch, rp)
+					aP.setName("a")
+					bP.setName("b")
+					nP.setName("n")
+					rP.setName("r")
+					pb := zkproof.NewBaseMerge(&g, &aP, &bP, &nP, &rP)
+					pp := zkproof.NewProofMerge(&aP, &bP, &nP, &rP)
+					lp = s.commitmentsFromProof(g, nil, ch, &pb, &pp, proof)
+				}
+			}
+			return vsched.Scenario{Body: body, Check: func(x *vsched.Exec) {
+				r.Eval()
+				r.Nontrivial(phase + fmt.Sprint(x.Choices))
+				sig := ""
+				switch {
+				case x.Horizon:
+					r.Count("executions cut by the step horizon", 1)
+					return
+				case len(x.Panics) > 0:
+					sig = "panic: " + x.Panics[0]
+				case x.Deadlock:
+					sig = "deadlock-or-leaked-worker"
+				default:
+					for _, v := range ls {
+						if v == nil {
+							sig = "commitment-list-incomplete"
+						}
+					}
+					if phase == "commitmentsFromProof" && !c17SameList(ls, lp) {
+						sig = "reconstructed-commitments-differ"
+					}
+				}
+				r.Outcome(phase + ":" + map[bool]string{true: "ok", false: sig}[sig == ""])
+				if sig != "" {
+					r.Violate("C20|exp-worker-pool|"+sig, fmt.Sprintf("%s, schedule %v", phase, x.Choices), map[string]any{"phase": phase, "choices": x.Choices})
+				}
+			}}
+		}
+		// in the commitmentsFromProof phase only the second pool is of interest, but both run under the scheduler
+		res := vsched.Explore(vsched.Options{MaxPreemptions: bound, Deadline: deadline, Shard: r.Shard, Shards: r.Shards, MaxSteps: 3000}, fresh)
+		r.Schedules += int64(res.Executions)
+		r.States += res.Points
+		r.Transitions += res.Points
+		r.Traces += int64(res.Executions)
+		r.Sample(map[string]any{"phase": phase, "executions": res.Executions, "scheduling_points": res.Points, "threads": res.MaxThreads, "complete": res.Complete})
+		if res.Diverged != "" {
+			r.HarnessError("%s: %s", phase, res.Diverged)
+			return
+		}
+		if !res.Complete {
+			r.Cap(fmt.Sprintf("%s: %s after %d executions", phase, res.Cap, res.Executions))
+		}
+	}
 }
